@@ -193,6 +193,21 @@ def compressible_code(ch):
     return (body * (6 + n)) + b'\n'
 
 
+def check_shared_rows(g, mem, case, what):
+    """The loaded cart's map rows 32-63 ARE the bytes of sprite memory 0x1000-0x1fff (and rows 0-31 the map region):
+    asked through the Map accessor, the way tools and the .p8.png twin see them."""
+    for k in range(24):
+        x, y = (k * 37 + 5) % 128, (k * 11 + 3) % 64
+        want = mem[0x1000 + (y - 32) * 128 + x] if y >= 32 else mem[0x2000 + y * 128 + x]
+        try:
+            got = g.map.get_cell(x, y)
+        except Exception as e:
+            raise Violation('%s: map.get_cell(%d, %d) raised %r' % (what, x, y, e), case, 'shared-rows')
+        if got != want:
+            raise Violation('%s: map cell (%d, %d) reads 0x%02x, cart memory has 0x%02x there (rows 32-63 live in sprite '
+                            'memory 0x1000-0x1fff)' % (what, x, y, got, want), case, 'shared-rows')
+
+
 def whole_cart(seed, fmt):
     from pico8.game.formatter.p8 import P8Formatter
     from pico8.game.formatter.p8png import P8PNGFormatter, EMPTY_LABEL_FNAME
@@ -243,7 +258,7 @@ def whole_cart(seed, fmt):
         exp = {'gfx': mem_r[0:0x2000], 'map': mem_r[0x2000:0x3000], 'gff': mem_r[0x3000:0x3100],
                'music': reffmt.music_mask(mem_r[0x3100:0x3200]), 'sfx': mem_r[0x3200:0x4300],
                'label': label, 'code': code, 'version': version}
-        text = reffmt.write_p8(version, code, mem_r, label, elide=elide)
+        text = reffmt.write_p8(version, code, mem_r, label, elide=('headers' if (elide and seed[-9] % 2) else elide))
         unterminated = seed[-5] % 4 == 0
         if unterminated:
             # the last row of the last section without a line terminator (editors strip trailing blank lines and the
@@ -258,6 +273,8 @@ def whole_cart(seed, fmt):
                'music': bytes(g2.music._data), 'sfx': bytes(g2.sfx._data),
                'label': bytes(g2.label._data) if g2.label is not None else None,
                'code': b''.join(g2.lua.to_lines()), 'version': g2.version}
+        if all(len(got[k]) == len(exp[k]) for k in ('gfx', 'map')):
+            check_shared_rows(g2, mem_r, case, 'cart loaded from a reference-written .p8 (label %s)' % ('present' if label else 'absent'))
         for k, v in exp.items():
             if got[k] != v:
                 raise Violation('picotool reading a reference-written .p8%s: section %s differs (%s bytes, expected %s)'
@@ -281,6 +298,7 @@ def whole_cart(seed, fmt):
             bad = [n for (n, lo, hi), d in zip(cartgen.REGIONS, cartgen.region_datas(g2)) if d != mem[lo:hi]]
             raise Violation('picotool reading a reference-written .p8.png: regions %s differ' % bad,
                             case, 'png-read-regions')
+        check_shared_rows(g2, mem, case, 'cart loaded from a reference-written .p8.png')
         if g2.version != version:
             raise Violation('picotool read version %r from a .p8.png carrying %d' % (g2.version, version),
                             case, 'png-read-version')
